@@ -375,6 +375,47 @@ def tracked_lineages(ctx):
     ctx.count("single_cells_of_a_tree")
 
 
+def copies_of_used_models(ctx):
+    """copies of models whose stored values are what a session left behind: a parameter that an assignment rule owns, left at
+    NaN (0/0) by a run in which both species died out; a signal species set to -1 after the model was initialised.  The
+    original simulates from these values (its rules recompute the parameter at t = 0); so does every copy, identically."""
+    from bioscrape.types import Model
+    from bioscrape.simulator import py_simulate_model
+    from bioscrape.random import py_seed_random
+
+    def run_(M, T, stochastic):
+        py_seed_random(1234)
+        with warnings.catch_warnings():
+            warnings.simplefilter("ignore")
+            return np.array(py_simulate_model(T.copy(), Model=M, stochastic=stochastic, return_dataframe=False).py_get_result())
+    MB = Model(species=["A", "B", "S"], reactions=[(["A"], [], "massaction", {"k": 1.0}), (["B"], [], "massaction", {"k": 1.0})], parameters={"fA": 0.5},
+               rules=[("assignment", {"equation": "_fA = A/(A+B)"}), ("assignment", {"equation": "S = 100*fA"})], initial_condition_dict={"A": 5, "B": 5, "S": 0})
+    run_(MB, np.linspace(0, 30, 301), True)
+    MC = Model(species=["X", "u"], reactions=[([], ["X"], "general", {"rate": "k*(2+u)"}), (["X"], [], "massaction", {"k": 0.1})], parameters={"k": 1.0},
+               initial_condition_dict={"X": 0, "u": 0})
+    MC.py_initialize()
+    MC.set_species({"u": -1.0})
+    for name, M, T, modes in (("rule-owned parameter left at NaN by an earlier run", MB, np.linspace(0, 30, 301), (True,)),
+                              ("species set to -1 after initialisation", MC, np.linspace(0, 10, 101), (False, True))):
+        for stochastic in modes:
+            cs = [("pickle", pickle.loads(pickle.dumps(M))), ("deepcopy", copy.deepcopy(M)), ("pickle of pickle", pickle.loads(pickle.dumps(pickle.loads(pickle.dumps(M)))))]
+            before = {k: float(v) for k, v in dict(M.get_species_dictionary()).items()}
+            ref = run_(M, T, stochastic)
+            for how, C in cs:
+                case = {"scenario": "copy of a used model", "model": name, "how": how, "stochastic": stochastic}
+                ctx.begin_case(case)
+                try:
+                    out = run_(C, T, stochastic)
+                except Exception as e:
+                    out = "%s: %s" % (type(e).__name__, str(e)[:120])
+                ctx.evaluated()
+                if isinstance(out, str) or out.shape != ref.shape or not np.array_equal(out, ref, equal_nan=True):
+                    ctx.violation("copy/used-model", "%s (%s): the original simulates from the values %s, its %s %s" % (name, "stochastic" if stochastic else "deterministic", before, how,
+                                  ("raises " + out) if isinstance(out, str) else "gives another trajectory (largest difference %g)" % float(np.nanmax(np.abs(out - ref)))), case)
+                    return
+                ctx.count("copies_of_used_models")
+
+
 TABLES = {}
 
 
@@ -384,6 +425,7 @@ def run(ctx):
     TABLES["__reduce__"] = pickle_tables.build_reduce_tables(common.REPO)
     rng = ctx.rng
     tracked_lineages(ctx)
+    copies_of_used_models(ctx)
     n = 40 if ctx.quick() else 800
     for i in range(n):
         model_case(ctx, rng)
